@@ -302,4 +302,34 @@ pub fn possible_intersection<F>(""")]),
     # ---- both operand loops folded into one helper with a loop (seed s49 without the static)
     B('queue-polygons-helper', ['C01', 'C05', 'C06', 'C07', 'C09', 'C13', 'C12', 'C03'], [(FQ, '    for polygon in subject {\n        contour_id += 1;\n        process_polygon(polygon.exterior(), true, contour_id, &mut event_queue, sbbox, true);\n        for interior in polygon.interiors() {\n            process_polygon(interior, true, contour_id, &mut event_queue, sbbox, false);\n        }\n    }\n\n    for polygon in clipping {\n        let exterior = operation != Operation::Difference;\n        if exterior {\n            contour_id += 1;\n        }\n        process_polygon(polygon.exterior(), false, contour_id, &mut event_queue, cbbox, exterior);\n        for interior in polygon.interiors() {\n            process_polygon(interior, false, contour_id, &mut event_queue, cbbox, false);\n        }\n    }\n\n    event_queue\n}\n', '    queue_polygons(subject, true, true, &mut contour_id, &mut event_queue, sbbox);\n    queue_polygons(clipping, false, operation != Operation::Difference, &mut contour_id, &mut event_queue, cbbox);\n\n    event_queue\n}\n\nfn queue_polygons<F>(\n    polygons: &[Polygon<F>],\n    is_subject: bool,\n    exterior: bool,\n    contour_id: &mut u32,\n    event_queue: &mut BinaryHeap<Rc<SweepEvent<F>>>,\n    bbox: &mut BoundingBox<F>,\n) where\n    F: Float,\n{\n    for polygon in polygons {\n        if exterior {\n            *contour_id += 1;\n        }\n        process_polygon(polygon.exterior(), is_subject, *contour_id, event_queue, bbox, exterior);\n        for interior in polygon.interiors() {\n            process_polygon(interior, is_subject, *contour_id, event_queue, bbox, false);\n        }\n    }\n}\n')]),
     M('queue-polygons-helper-wrong-box', ['C05', 'C09'], [(FQ, '    for polygon in subject {\n        contour_id += 1;\n        process_polygon(polygon.exterior(), true, contour_id, &mut event_queue, sbbox, true);\n        for interior in polygon.interiors() {\n            process_polygon(interior, true, contour_id, &mut event_queue, sbbox, false);\n        }\n    }\n\n    for polygon in clipping {\n        let exterior = operation != Operation::Difference;\n        if exterior {\n            contour_id += 1;\n        }\n        process_polygon(polygon.exterior(), false, contour_id, &mut event_queue, cbbox, exterior);\n        for interior in polygon.interiors() {\n            process_polygon(interior, false, contour_id, &mut event_queue, cbbox, false);\n        }\n    }\n\n    event_queue\n}\n', '    queue_polygons(subject, true, true, &mut contour_id, &mut event_queue, sbbox);\n    queue_polygons(clipping, false, operation != Operation::Difference, &mut contour_id, &mut event_queue, sbbox);\n\n    event_queue\n}\n\nfn queue_polygons<F>(\n    polygons: &[Polygon<F>],\n    is_subject: bool,\n    exterior: bool,\n    contour_id: &mut u32,\n    event_queue: &mut BinaryHeap<Rc<SweepEvent<F>>>,\n    bbox: &mut BoundingBox<F>,\n) where\n    F: Float,\n{\n    for polygon in polygons {\n        if exterior {\n            *contour_id += 1;\n        }\n        process_polygon(polygon.exterior(), is_subject, *contour_id, event_queue, bbox, exterior);\n        for interior in polygon.interiors() {\n            process_polygon(interior, is_subject, *contour_id, event_queue, bbox, false);\n        }\n    }\n}\n')], {'C05': 'B-acc'}),
+    # ---- batch of behaviour-preserving rewrites of compute_fields.rs
+    B('cf-hoist-vertical', ['C01', 'C02', 'C04', 'C14', 'C05'], [(CF, """        if event.is_subject == prev.is_subject {
+            if prev.is_vertical() {""", """        let prev_vertical = prev.is_vertical();
+        if event.is_subject == prev.is_subject {
+            if prev_vertical {"""), (CF, "        } else if prev.is_vertical() {\n            event.set_in_out(!prev.is_other_in_out(), !prev.is_in_out());", "        } else if prev_vertical {\n            event.set_in_out(!prev.is_other_in_out(), !prev.is_in_out());"), (CF, "        if prev.is_in_result() && !prev.is_vertical() {", "        if prev.is_in_result() && !prev_vertical {")]),
+    B('cf-difference-eq-form', ['C01', 'C05', 'C06', 'C14', 'C04'], [(CF, "                (event.is_subject && event.is_other_in_out()) || (!event.is_subject && !event.is_other_in_out())", "                event.is_subject == event.is_other_in_out()")]),
+    B('cf-transition-match-bool', ['C01', 'C02', 'C14', 'C05'], [(CF, "    if is_in {\n        ResultTransition::OutIn\n    } else {\n        ResultTransition::InOut\n    }", "    match is_in {\n        true => ResultTransition::OutIn,\n        false => ResultTransition::InOut,\n    }")]),
+    B('cf-result-transition-positive-if', ['C01', 'C02', 'C14', 'C05', 'C04'], [(CF, "    let in_result = in_result(event, operation);\n    let result_transition = if !in_result {\n        ResultTransition::None\n    } else {\n        determine_result_transition(event, operation)\n    };", "    let result_transition = if in_result(event, operation) {\n        determine_result_transition(event, operation)\n    } else {\n        ResultTransition::None\n    };")]),
+    B('cf-same-transition-matches', ['C01', 'C05', 'C06', 'C14'], [(CF, "        EdgeType::SameTransition => operation == Operation::Intersection || operation == Operation::Union,", "        EdgeType::SameTransition => matches!(operation, Operation::Intersection | Operation::Union),")]),
+    B('cf-xor-ne', ['C01', 'C02', 'C05', 'C14'], [(CF, "        Operation::Xor => this_in ^ that_in,", "        Operation::Xor => this_in != that_in,")]),
+    # ---- batch of behaviour-preserving rewrites of subdivide_segments.rs
+    B('sd-break-named-bools', ['C05', 'C09', 'C13', 'C06', 'C14'], [(SD, '        if operation == Operation::Intersection && event.point.x > rightbound\n            || operation == Operation::Difference && event.point.x > sbbox.max.x\n        {\n            break;\n        }\n', """        let past_both = event.point.x > rightbound;
+        let past_subject = event.point.x > sbbox.max.x;
+        if operation == Operation::Intersection && past_both || operation == Operation::Difference && past_subject {
+            break;
+        }
+""")]),
+    B('sd-break-match-operation', ['C05', 'C09', 'C13', 'C06', 'C14'], [(SD, '        if operation == Operation::Intersection && event.point.x > rightbound\n            || operation == Operation::Difference && event.point.x > sbbox.max.x\n        {\n            break;\n        }\n', """        let stop = match operation {
+            Operation::Intersection => event.point.x > rightbound,
+            Operation::Difference => event.point.x > sbbox.max.x,
+            _ => false,
+        };
+        if stop {
+            break;
+        }
+""")]),
+    B('sd-loop-match-pop', ['C05', 'C09', 'C13', 'C06', 'C14', 'C03', 'C18', 'C12'], [(SD, "    while let Some(event) = event_queue.pop() {", "    loop {\n        let event = match event_queue.pop() {\n            Some(event) => event,\n            None => break,\n        };")]),
+    B('sd-post-removal-nested-if-let', ['C13', 'C06', 'C14', 'C09'], [(SD, "                if let (Some(prev), Some(next)) = (maybe_prev, maybe_next) {", "                if let (Some(prev), Some(next)) = (&maybe_prev, &maybe_next) {"), (SD, "                    possible_intersection(&prev, &next, event_queue);", "                    possible_intersection(prev, next, event_queue);")]),
+    B('sd-rightbound-if', ['C05', 'C09', 'C13', 'C08', 'C10'], [(SD, "    let rightbound = sbbox.max.x.min(cbbox.max.x);", "    let rightbound = if sbbox.max.x < cbbox.max.x { sbbox.max.x } else { cbbox.max.x };")]),
+    B('sd-rc-clone-explicit', ['C13', 'C06', 'C14', 'C09', 'C12'], [(SD, "        sorted_events.push(event.clone());", "        sorted_events.push(Rc::clone(&event));")]),
 ]
